@@ -2,6 +2,8 @@
 From Coq Require Import List NArith Bool Arith Lia Field_theory.
 From CC Require Import Policy Structure Keys KeysMachine KInv1.
 From CC Require CryptoKem.
+From CC Require Import DisabledProofs KInv1 KInv2 KInv3 KInv4 KInv4b KInv5 KInv6 KInv7 KInv8 KInv9 KInv10.
+From CC Require KeysTheorems.
 Import ListNotations.
 
 (* Algebra: with a non-zero last tracer, choosing the last marker as (s - sum_{i<n} t_i a_i) / t_n makes the markers
@@ -41,3 +43,18 @@ Proof.
   rewrite E. cbn. reflexivity.
 Qed.
 Print Assumptions C17_unknown_id_refused.
+
+(* ---- over all reachable states of the key-management state machine (KInv*.v, gathered in KeysTheorems.v) ---- *)
+Theorem C17_refresh_keeps_ids_reach :
+  forall (s : state) (k : nat) (keep : bool),
+       let s' := fst (step fixed s (ORefresh k keep)) in
+       map u_id (st_usks s') = map u_id (st_usks s) /\ st_msk s' = st_msk s.
+Proof. exact (@KeysTheorems.C17_refresh_keeps_ids). Qed.
+Print Assumptions C17_refresh_keeps_ids_reach.
+
+Theorem C17_roundtrip_keeps_state_reach :
+  forall (s : state) (o : objref), fst (step fixed s (ORoundTrip o)) = s.
+Proof. exact (@KeysTheorems.C17_roundtrip_keeps_state). Qed.
+Print Assumptions C17_roundtrip_keeps_state_reach.
+
+
